@@ -1,6 +1,7 @@
 #!/bin/bash
 # confirm_seed.sh <id> <install-cmd> <demo-cmd>: in /tmp/seed-<id>: demo must FAIL with patch and PASS without;
 # then the full workspace suite with the patch must keep every BASELINE stable_pass test green.
+export CARGO_PROFILE_DEV_DEBUG=line-tables-only   # the pre-built target copies were produced with it
 id="$1"; install="$2"; demo="$3"; d="/tmp/seed-$id"
 cd "$d" || exit 2
 git checkout -- . ; git clean -fdq -e target -e out
